@@ -448,7 +448,7 @@ def do_compute(m: Machine, step):
             return
         met = M.APE(rel)
         met.process_data((a.obj, b.obj))
-        met.get_all_statistics()
+        _metric_followups(m, met, step)
         m.probe_hit("compute_ape")
     elif what == "rpe":
         if b is None or b.model.n == 0:
@@ -459,7 +459,7 @@ def do_compute(m: Machine, step):
                     step.get("all_pairs", False),
                     step.get("pairs_from_reference", False))
         met.process_data((a.obj, b.obj))
-        met.get_all_statistics()
+        _metric_followups(m, met, step)
         m.probe_hit("compute_rpe")
     elif what == "main_ape":
         if b is None or b.model.n == 0:
@@ -613,6 +613,32 @@ def do_compute(m: Machine, step):
         do_plot(m, a, b, step)
     else:
         raise HarnessError(f"unknown computation {what}")
+
+
+def _metric_followups(m, met, step):
+    """everything one does with a processed metric besides reading .error"""
+    evo = m.evo
+    M = evo.metrics
+    met.get_all_statistics()
+    for st in M.StatisticsType:
+        met.get_statistic(st)
+    res = met.get_result("ref", "est")
+    evo.pandas_bridge.result_to_df(res, label=step.get("label") or None)
+    buf = io.BytesIO()
+    evo.file_interface.save_res_file(buf, res)
+    buf.seek(0)
+    evo.file_interface.load_res_file(buf, load_trajectories=True)
+    unit = step.get("change_unit")
+    if unit:
+        try:
+            met.change_unit({"mm": M.Unit.millimeters, "km": M.Unit.kilometers,
+                             "deg": M.Unit.degrees, "rad": M.Unit.radians,
+                             "m": M.Unit.meters}[unit])
+            met.get_all_statistics()
+            met.get_result("ref", "est")
+        except M.MetricsException:
+            pass  # angle <-> length and unit-less metrics cannot convert
+    m.probe_hit("compute_metric_followups")
 
 
 def do_plot(m, a, b, step):
@@ -1024,10 +1050,17 @@ def gen_step(m: Machine, rng, uid):
         if what in ("rpe", "main_rpe"):
             st["delta"] = rng.choice([1, 1, 2, 3])
             st["unit"] = "f"
+            if what == "rpe" and rng.random() < 0.4:
+                st["unit"] = rng.choice(["m", "d", "r"])
+                st["delta"] = rng.choice([0.5, 1.0, 5.0, 30.0]) * (
+                    scale if st["unit"] == "m" else 1.0)
             st["all_pairs"] = rng.random() < 0.3
             st["pairs_from_reference"] = rng.random() < 0.3
         st["scale"] = rng.random() < 0.5
         st["contiguous"] = rng.random() < 0.5
+        st["change_unit"] = rng.choice([None, None, "mm", "km", "deg", "rad",
+                                        "m"])
+        st["label"] = rng.choice(["", "x"])
     elif what in ("lie", "helpers"):
         st["i"], st["j"] = rng.randrange(64), rng.randrange(64)
     elif what == "filter_pairs":
